@@ -77,6 +77,13 @@ def gen_cases(ctx, n):
         dl = start + s * NS
         cases.append("sleep %d %s" % (s, fmt_clock(clock_script(r, start, dl, r.rng(0, 5), r.choice([1, 2, NS])))))
     # timed lock / join
+    # far-away deadlines (hundreds of years and up to the end of the representable range): arithmetic on the
+    # remaining time must not wrap; the resource becomes available after a few attempts, long before the deadline
+    for sec in (10 ** 10, 2 ** 40, 2 ** 62, 2 ** 63 - 1):
+        for op in ("tlock", "tjoin"):
+            for F in (2, 4):
+                rd = [1700000000 * NS + 10 * k for k in range(F + 3)]
+                cases.append("%s %d %d %d %s" % (op, sec, 999999999 if sec == 2 ** 63 - 1 else 5, F, fmt_clock(rd)))
     for i in range(n):
         op = r.choice(["tlock", "tjoin"])
         d = r.choice([0, 999999999, 3 * NS, 5 * NS + 999999999, 1700000000 * NS + 17])
